@@ -1,5 +1,6 @@
 (* C17 — Bucket names are accepted exactly when they satisfy the documented S3 rules. *)
 From GF Require Import Base.Lit Model.BucketName Spec.NameSpec Proofs.NameProofs.
+From GF Require Import Base.SortedMap Model.Mem Model.Handlers Proofs.MemInv.
 
 (* The validator (regexp matcher, IP test, per-label regexp — in the order the Go code applies
    them) decides exactly the declarative rule, for EVERY byte string of any length. *)
@@ -23,6 +24,18 @@ Theorem C17_refused_creates_nothing : forall existing name,
   snd (name_create existing name) = false -> fst (name_create existing name) = existing.
 Proof. exact create_refused_creates_nothing. Qed.
 Print Assumptions C17_refused_creates_nothing.
+
+(* handler level, every configuration (WithAutoBucket included): buckets are created only by
+   create-bucket and by the first use of an absent bucket under auto-bucket, and both apply the
+   validator — so no operation adds a bucket with an invalid name, and every bucket of every
+   state reached from the empty one by any operation sequence has a valid name *)
+Theorem C17_auto_bucket_never_creates_invalid_name :
+  (forall c s o,
+     (forall b bk, In (b, bk) (st_buckets s) -> validate b = true) ->
+     forall b bk, In (b, bk) (st_buckets (fst (step c s o))) -> validate b = true) /\
+  (forall c ops b bk, In (b, bk) (st_buckets (fst (run c init ops))) -> validate b = true).
+Proof. exact auto_bucket_never_creates_invalid_name. Qed.
+Print Assumptions C17_auto_bucket_never_creates_invalid_name.
 
 Example C17_ex_ok : validate (B "my-bucket.v20.example") = true. Proof. reflexivity. Qed.
 Example C17_ex_ip : validate (B "100.200.100.200") = false. Proof. reflexivity. Qed.
